@@ -379,6 +379,16 @@ func equalItems(a, b *Item) (res eqOutcome, zone bool, why string) {
 			return eqFalse, false, ""
 		}
 		prim := structEqual(a, b, MaxStackItems, MaxComparableSize, true, &why)
+		if prim == eqFault && why == "struct-equal-comparable-size-exceeded" {
+			// Labelling only (never changes the verdict): the fault is named
+			// "...-at-one-level" when a comparison that gave every nested struct
+			// a budget of its own would overflow as well, i.e. when the overflow
+			// does not need nesting to be seen.
+			n := MaxStackItems
+			if structEqualPerLevel(a, b, &n) == eqFault {
+				why = "struct-equal-comparable-size-exceeded-at-one-level"
+			}
+		}
 		// The comparison budget (MaxStackSize visited items, MaxComparableSize
 		// comparable units shared by the whole traversal) and the LIFO order are
 		// the reference's; whenever the verdict would change with a budget a few
@@ -464,6 +474,56 @@ func structEqual(a, b *Item, count, budget int, lifo bool, why *string) eqOutcom
 		}
 		r, _, _ := equalItems(p.a, p.b) // non-struct, non-bytestring: plain Equals
 		if r != eqTrue {
+			return eqFalse
+		}
+	}
+	return eqTrue
+}
+
+// structEqualPerLevel is NOT the reference rule: it is the same comparison with
+// a fresh comparable-size budget for every nested struct (members first to
+// last). It only serves to label size faults, see equalItems.
+func structEqualPerLevel(a, b *Item, count *int) eqOutcome {
+	if a == b {
+		return eqTrue
+	}
+	if len(a.L) != len(b.L) {
+		return eqFalse
+	}
+	budget := MaxComparableSize
+	for i := range a.L {
+		*count--
+		if *count <= 0 {
+			return eqFalse // visit limits are labelled elsewhere
+		}
+		x, y := a.L[i], b.L[i]
+		if x.K == KBytes {
+			if len(x.D) > budget || budget == 0 {
+				return eqFault
+			}
+			if y.K != KBytes {
+				return eqFalse
+			}
+			if len(y.D) > budget {
+				return eqFault
+			}
+			if !bytes.Equal(x.D, y.D) {
+				return eqFalse
+			}
+			budget -= max(len(x.D), len(y.D), 1)
+			continue
+		}
+		if budget == 0 {
+			return eqFault
+		}
+		budget--
+		if x.K == KStruct && y.K == KStruct {
+			if r := structEqualPerLevel(x, y, count); r != eqTrue {
+				return r
+			}
+			continue
+		}
+		if r, _, _ := equalItems(x, y); r != eqTrue {
 			return eqFalse
 		}
 	}
